@@ -215,3 +215,55 @@ def r6_payload_not_shared(ctx):
 
 
 RULES.append(r6_payload_not_shared)
+
+
+def r7_wrappers_keep_name(ctx):
+    """C14.R7: a node's name takes the callable's identity from `__name__` (KF-2 records that nothing else enters); so every wrapper that
+    earthkit.workflows.backends puts in place of a back-end function must carry the wrapped function's `__name__` (functools.wraps with the
+    default `assigned`, or an explicit assignment) — otherwise add / subtract / multiply … all hash to one name and different
+    computations get the same node name."""
+    import ast as _ast
+    repo = ctx.repo
+    m = repo.module("earthkit.workflows.backends")
+    n = 0
+    for fi in repo.all_funcs():
+        if fi.module is not m or fi.parent is None:
+            continue
+        # a nested function that calls a parameter / captured variable of an enclosing function and is returned by it: a wrapper
+        outer = fi.parent
+        returned = any(isinstance(r, _ast.Return) and isinstance(r.value, _ast.Name) and r.value.id == fi.name for r in _ast.walk(outer.node))
+        outer_params = set()
+        o = outer
+        while o is not None:
+            outer_params |= {a.arg for a in o.node.args.args + o.node.args.posonlyargs + o.node.args.kwonlyargs}
+            o = o.parent
+        wrapped = [c.func.id for c in _ast.walk(fi.node) if isinstance(c, _ast.Call) and isinstance(c.func, _ast.Name) and c.func.id in outer_params]
+        if not returned or not wrapped:
+            continue
+        n += 1
+        ctx.analysed(fi.qual)
+        keeps = False
+        for d in fi.node.decorator_list:
+            if isinstance(d, _ast.Call) and _ast.unparse(d.func).split(".")[-1] == "wraps" and d.args and isinstance(d.args[0], _ast.Name) and d.args[0].id in wrapped:
+                asg = [k for k in d.keywords if k.arg == "assigned"]
+                if not asg:
+                    keeps = True
+                else:
+                    try:
+                        keeps = "__name__" in _ast.literal_eval(asg[0].value)
+                    except Exception:
+                        keeps = "__name__" in _ast.unparse(asg[0].value) or "WRAPPER_ASSIGNMENTS" in _ast.unparse(asg[0].value)
+        for st in _ast.walk(outer.node):
+            if isinstance(st, _ast.Assign) and any(isinstance(t, _ast.Attribute) and t.attr == "__name__" and isinstance(t.value, _ast.Name) and t.value.id == fi.name
+                                                   for t in st.targets):
+                keeps = True
+        if not keeps:
+            ctx.violation("C14.R7", fi.qual, loc(fi), "wrapper keeps the wrapped callable's __name__",
+                          f"{fi.qual} is returned in place of `{wrapped[0]}` but does not take over its __name__: every callable wrapped this way is named '{fi.name}', so "
+                          f"nodes applying different operations to the same inputs get the same name (their digest contains only the name, the arguments and the inputs)")
+        else:
+            ctx.ok("C14.R7", loc(fi), f"{fi.qual}: carries the wrapped function's __name__")
+    ctx.floor("C14.R7.wrappers", n, 1)
+
+
+RULES.append(r7_wrappers_keep_name)
